@@ -308,6 +308,22 @@ def run(F, rep):
     lk = [c for c in ev.walk() if c.get('k') == 'Call' and c.get('fn') == 'lock']
     rep.check(bool(lk), 'C09.E1', 'equivalentVariable|lock', ev.where(), 'equivalentVariable(i) does not lock the weak pointer', 'weak pointer locked (null for destroyed variables)')
 
+    # ------------------------------------------------------------------ S: both members of a variable pair
+    rep.rule('C09.S1', 'a function that consults one member of a VariablePair (variable1()/variable2()) consults the other member of the same pair too: ownership, identity and id bookkeeping of a pair never rest on one side')
+    n_s = 0
+    for f in F.funcs.values():
+        v1, v2 = {}, {}
+        for c in f.walk():
+            if c.get('k') == 'Call' and c.get('callee') in ('libcellml::VariablePair::variable1', 'libcellml::VariablePair::variable2'):
+                (v1 if c['callee'].endswith('1') else v2).setdefault(render(receiver(c)), c)
+        for e in sorted(set(v1) | set(v2)):
+            n_s += 1
+            c = v1.get(e) or v2.get(e)
+            rep.check(e in v1 and e in v2, 'C09.S1', '%s|%s' % (f.short, e), f.where(c),
+                      '%s reads only %s of the pair `%s`: whatever it decides (owning model, identity, ids) ignores the other variable' % (f.short, 'variable1()' if e in v1 else 'variable2()', e), 'both members read')
+    if n_s < 8:
+        raise AnalysisBroken('C09.S1: %d pair uses found (10 confirmed)' % n_s)
+
 
 def strip_cast(n):
     while n is not None and n.get('k') in ('Cast', 'Construct') and len(n.get('c', [])) == 1:
@@ -330,3 +346,4 @@ def chain_root(call):
             continue
         break
     return n
+
